@@ -568,6 +568,9 @@ type RouteSpec struct {
 	// its leading slash. The full path is the same text either way.
 	Grp    int
 	GrpRel bool
+	// Prepared: the route object is built first (NewNamedRoute) from a scratch slice of method names that the
+	// application reuses for its next table entry before the route is attached
+	Prepared bool
 }
 
 // groupable returns how many leading segments of the pattern can be moved into group prefixes.
@@ -589,11 +592,23 @@ func (p *Pattern) groupable() int {
 
 // Register adds the route to the router (directly, or inside nested groups).
 func (rs *RouteSpec) Register(r *rux.Router, h rux.HandlerFunc) (route *rux.Route) {
+	addNamed := func(path string) *rux.Route {
+		if !rs.Prepared {
+			return r.AddNamed(rs.Name, path, h, rs.Methods...)
+		}
+		buf := append(make([]string, 0, len(rs.Methods)+2), rs.Methods...)
+		rt := rux.NewNamedRoute(rs.Name, path, h, buf...)
+		for i := range buf {
+			buf[i] = "NEXT-ENTRY" // the buffer is the application's: it goes on to the next entry of its table
+		}
+		rt.AttachTo(r)
+		return rt
+	}
 	if rs.Grp == 0 {
-		return r.AddNamed(rs.Name, rs.Pat.String(), h, rs.Methods...)
+		return addNamed(rs.Pat.String())
 	}
 	rest := &Pattern{Segs: rs.Pat.Segs[rs.Grp:], Opts: rs.Pat.Opts}
-	add := func() { route = r.AddNamed(rs.Name, rest.String(), h, rs.Methods...) }
+	add := func() { route = addNamed(rest.String()) }
 	if rs.Grp == 1 {
 		pre := segsString(rs.Pat.Segs[:1])
 		if rs.GrpRel {
@@ -648,6 +663,9 @@ func (tb *Table) Describe() any {
 		if r.Grp > 0 {
 			m["registered_inside_nested_groups(prefixes = leading segments, literal or variable)"] = r.Grp
 			m["inner_prefix_without_leading_slash"] = r.GrpRel
+		}
+		if r.Prepared {
+			m["built_with_NewNamedRoute_from_a_scratch_slice_that_is_reused_before_AttachTo"] = true
 		}
 		out = append(out, m)
 	}
@@ -709,6 +727,7 @@ func GenTable(r *rand.Rand, n int, getSkew int) *Table {
 			rs.Grp = 1 + r.IntN(k)
 			rs.GrpRel = chance(r, 1, 2)
 		}
+		rs.Prepared = chance(r, 1, 6)
 		tb.Routes = append(tb.Routes, rs)
 	}
 	tb.Via = pick(r, []int{0, 0, 1, 2})
